@@ -30,6 +30,7 @@ import ast
 from sa.core import rule, AnalysisError
 from sa.pyindex import get_module, dotted, src, walk_no_nested, try_fold
 from sa import flow
+from rules import _util_c11c01 as _u
 
 MIXIN = "pytype/abstract/class_mixin.py"
 COMPARE = "pytype/compare.py"
@@ -111,19 +112,47 @@ def _truth_flag(ctx):
   if len(params) != 2:
     raise AnalysisError("compatible_with: unexpected signature")
   logical = params[1]
+  # `return <logical value>` in compatible_with itself, or in a module-local
+  # helper that is handed the logical value (the Instance arm extracted into a
+  # function): (function, name of the logical value there)
+  work = [(fn, logical)]
+  for c in ast.walk(fn):
+    if isinstance(c, ast.Call) and isinstance(c.func, ast.Name) and \
+        c.func.id in mod.functions and c.func.id != fn.name:
+      helper = mod.functions[c.func.id]
+      binding = _u.bind_call(helper, c)
+      if binding is None:
+        raise AnalysisError(f"compatible_with: call `{src(c)}` not understood")
+      for pname, a in binding.items():
+        if isinstance(a, ast.Name) and a.id == logical:
+          work.append((helper, pname))
   flags = set()
-  for r in ast.walk(fn):
-    if isinstance(r, ast.Return) and isinstance(r.value, ast.Name) and r.value.id == logical:
-      for test, pol in flow.guards(mod.parent, r, stop=fn):
-        conj = test.values if isinstance(test, ast.BoolOp) and isinstance(test.op, ast.And) \
-            and pol else [test]
-        for c in conj:
-          p = pol
-          while isinstance(c, ast.UnaryOp) and isinstance(c.op, ast.Not):
-            c, p = c.operand, not p
-          d = dotted(c)
-          if d and not p and ".cls." in d:
-            flags.add(d.split(".")[-1])
+  for f, lname in work:
+    if any(isinstance(n, ast.Name) and n.id == lname and not isinstance(n.ctx, ast.Load)
+           for n in ast.walk(f)):
+      raise AnalysisError(f"{f.name} rebinds `{lname}`")
+    once = {}
+    for n in walk_no_nested(f):
+      if isinstance(n, ast.Assign) and len(n.targets) == 1 and \
+          isinstance(n.targets[0], ast.Name):
+        once.setdefault(n.targets[0].id, []).append(n.value)
+    for r in walk_no_nested(f):
+      if isinstance(r, ast.Return) and isinstance(r.value, ast.Name) and r.value.id == lname:
+        for test, pol in flow.guards(mod.parent, r, stop=f):
+          # `not (A or flag)` / `A and not flag` / nested `not`: the literals the
+          # path condition decides
+          for c, p in _u.literals(test, pol):
+            d = dotted(c)
+            if not d or p:
+              continue
+            if ".cls." in d:
+              flags.add(d.split(".")[-1])
+            elif d.count(".") == 1:
+              # <local>.<flag> with `<local> = <value>.cls` bound once
+              recv, attr = d.split(".")
+              vals = once.get(recv, [])
+              if len(vals) == 1 and (dotted(vals[0]) or "").endswith(".cls"):
+                flags.add(attr)
   if len(flags) != 1:
     raise AnalysisError(
         f"compatible_with: the class flag guarding the definite answer for "
@@ -541,6 +570,13 @@ VARIANTS = [
     {"name": "twin-overrides-bool-reversed-scan", "rule": "R1.20", "file": MIXIN, "expect": "silent",
      "old": "    for cls in self.mro:\n      if isinstance(cls, Class):\n        if any(x in cls.get_own_attributes()",
      "new": "    for cls in reversed(self.mro):\n      if isinstance(cls, Class):\n        if any(x in cls.get_own_attributes()"},
+    # the flag is read off compare.py also when the Instance arm is a helper with
+    # an inverted guard (benign/C01-r4)
+    {"name": "twin-benign-C01-r4-instance-arm-extracted", "rule": "R1.20", "patch": "benign/C01-r4/patch.diff", "expect": "silent"},
+    {"name": "C01-r4+overrides-bool-forgets-len", "rule": "R1.20", "patch": "benign/C01-r4/defect_overrides_bool_forgets_len.diff", "expect": "fire"},
+    {"name": "twin-compatible-with-guard-de-morgan", "rule": "R1.20", "file": COMPARE, "expect": "silent",
+     "old": "    elif isinstance(value.cls, abstract.Class) and not value.cls.overrides_bool:\n",
+     "new": "    elif not (not isinstance(value.cls, abstract.Class) or value.cls.overrides_bool):\n"},
     # R1.21
     {"name": "seeded-C01-r2m2", "rule": "R1.21", "patch": "seeded/C01-r2m2/patch.diff",
      "expect": "fire"},
